@@ -853,6 +853,9 @@ class Gen:
             cfgc["access_mode"] = mode
         return op
 
+    def op_reindex(self):
+        return {"op": "reindex"}
+
     def op_clock(self):
         r = self.rng
         d = r.choice([0, 0, 1, 1, 1000, 10 ** 6, 60 * 10 ** 6,
@@ -1103,6 +1106,11 @@ class Gen:
             mix = dict(p["mix"])
             if self.cfg["storage"] != "csv":
                 mix["cursor"] = 0
+            if not self.cfg["auto_index"] and mix.get("read", 0) + mix.get(
+                    "remove", 0) + mix.get("update", 0) > 0:
+                # without automatic indexing the index is only ever used
+                # after an explicit reindex(): make that common
+                mix["reindex"] = 1.2
             # a prefix of inserts so that most runs have something stored
             for _ in range(r.choice([0, 1, 2, 3, 4])):
                 self.emit(ops, self.op_insert())
@@ -1119,7 +1127,8 @@ class Gen:
                 op = getattr(self, "op_" + c)()
                 self.emit(ops, op)
                 if c in ("insert", "insert_multiple", "update", "update_all",
-                         "remove", "remove_all", "drop", "lifecycle"):
+                         "remove", "remove_all", "drop", "lifecycle",
+                         "reindex"):
                     a, b = p["reads_after"]
                     for _ in range(r.randint(a, b)):
                         rd = self.op_read() if r.random() < p.get(
